@@ -203,6 +203,10 @@ def run(F, R, tier):
 
     _static_runtime(F, R)
 
+    # ---- R6: near-degenerate series used in the decoupling regime (mH ~ mA ~ mH+) -----------------------
+    from .rules_c11 import _series_branches
+    _series_branches(F, R, rule="R6")
+
     # ---- R4: units of the THDM formulas ---------------------------------------------------------
     from .rules_c07 import check_units
     from fractions import Fraction as Fr
